@@ -558,7 +558,7 @@ theorem pres_handleLogon (p : Bool) (g0 : G2) (s : Sess) (m : InMsg) : Pres p g0
     | none =>
       simp only []
       generalize hs3 : (if ((if s2.cfg.initiator = true then false else s2.cfg.resetOnLogon) || logonResetFlag m && !s2.sentReset) = true
-          then s2.storeReset else s2) = s3
+          then dropAndReset s2 else s2) = s3
       have h3 : Pres p g0 s s3 := by rw [← hs3]; c2_peel
       have hv2 := (ext_verifySelect s3 m false true false).pres p g0
       generalize verifySelect s3 m false true false = r2 at hv2
